@@ -26,6 +26,9 @@ const (
 	// a field resolver selected inside a fragment on a union member: the context path ignores
 	// the oneof; the resolver is never called (null) or the compiler panics
 	findResolverInUnion = "C20-resolver-below-union-member"
+	// a field resolver selected below a plain composite field inside another resolver's result
+	// is dropped from the plan: never called, answered null
+	findResolverInResolverResult = "C20-resolver-inside-resolver-result-dropped"
 )
 
 // failure is what one of the oracles saw.
@@ -44,6 +47,28 @@ type ancestry struct {
 	nullable   bool // some ancestor field has a nullable (or nullable-element) type
 	nestedList bool // some ancestor field has a list-of-lists type
 	abstract   bool // some ancestor field has an interface or union type
+	// plain composite fields between the nearest resolver/@requires ancestor and this field
+	// (0 = selected directly in that ancestor's result, -1 = no such ancestor)
+	sinceResolver int
+}
+
+func noAncestry() ancestry { return ancestry{sinceResolver: -1} }
+
+// below derives the ancestry of the selections below field fd (of parent type t).
+func (a ancestry) below(w *world, t *ast.Definition, fd *ast.FieldDefinition) ancestry {
+	rt := w.schema.Types[fd.Type.Name()]
+	out := ancestry{
+		nullable:      a.nullable || !fd.Type.NonNull || (fd.Type.Elem != nil && !fd.Type.Elem.NonNull),
+		nestedList:    a.nestedList || listDepth(fd.Type) > 1,
+		abstract:      a.abstract || (rt != nil && rt.Kind != ast.Object),
+		sinceResolver: a.sinceResolver,
+	}
+	if u := w.units[t.Name+"."+fd.Name]; u != nil && (u.Kind == unitResolver || u.Kind == unitRequires) {
+		out.sinceResolver = 0
+	} else if a.sinceResolver >= 0 {
+		out.sinceResolver = a.sinceResolver + 1
+	}
+	return out
 }
 
 // unitFields visits every merged field group of the operation whose definition is a unit,
@@ -85,17 +110,13 @@ func (w *world) groups(p *parsedOp, fn func(t *ast.Definition, fd *ast.FieldDefi
 				fn(t, fd, path, f, sub, anc)
 				if len(sub) > 0 {
 					if rt := w.schema.Types[fd.Type.Name()]; rt != nil {
-						rec(rt, sub, path, ancestry{
-							nullable:   anc.nullable || !fd.Type.NonNull || (fd.Type.Elem != nil && !fd.Type.Elem.NonNull),
-							nestedList: anc.nestedList || listDepth(fd.Type) > 1,
-							abstract:   anc.abstract || rt.Kind != ast.Object,
-						})
+						rec(rt, sub, path, anc.below(w, t, fd))
 					}
 				}
 			}
 		}
 	}
-	rec(p.root, []ast.SelectionSet{p.op.SelectionSet}, "", ancestry{})
+	rec(p.root, []ast.SelectionSet{p.op.SelectionSet}, "", noAncestry())
 }
 
 // flatFields lists, in document order, the field occurrences the datasource planner sees as
@@ -376,6 +397,9 @@ func recognise(w *world, pa, pb *parsedOp, f failure) string {
 			if w.resolverUnder(p, func(a ancestry) bool { return a.abstract }) {
 				return findResolverInUnion
 			}
+			if w.resolverUnder(p, func(a ancestry) bool { return a.sinceResolver >= 1 }) {
+				return findResolverInResolverResult
+			}
 		}
 	case "shape":
 		// symptom: objects lack response keys, nothing else is wrong, and every lacking key is
@@ -533,6 +557,8 @@ func probes() pbt.Probes {
 		findTypenameKeys: probeSolo(findTypenameKeys,
 			unitCase{Rig: "plain", Q: `{ search(input: {query: "t", limit: 2}) { x: __typename __typename ... on Product { id } } }`}),
 		findNestedListParent: probeSolo(findNestedListParent, unitCase{Rig: "plain", Q: `{ blogPost { categoryGroups { id productCount } } }`}),
+		findResolverInResolverResult: probeSolo(findResolverInResolverResult,
+			unitCase{Rig: "fed", Unit: "Subcategory.itemCount", Q: `{ product(id: "2") { recommendedCategory(maxPrice: 0) { subcategories { itemCount } } } }`}),
 		findResolverInUnion: probeSolo(findResolverInUnion,
 			unitCase{Rig: "plain", Q: `{ search(input: {query: "t", limit: 1}) { ... on Category { subcategories { itemCount } } } }`},
 			unitCase{Rig: "plain", Unit: "Category.totalProducts", Q: `{ search(input: {query: "t", limit: 3}) { ... on Category { totalProducts } } }`}),
